@@ -43,7 +43,7 @@ def grammar_cpp(g, lexer='tok', ctx=None, ns='g', limits=None, lexer_type=None, 
             if f == 'hash':
                 rs.append('%s >= [](%s){ return hv::%s(%s); }' % (head, ', '.join(ps), ('redv<%s>' % vt) if vt != 'unsigned' else 'red', ', '.join([str(ri)] + args)))
             else:
-                if r['prec'] != 0 and vt == 'unsigned':
+                if r['prec'] != 0 and vt == 'unsigned' and not getattr(g, 'ctxprec_prefix', False):
                     # precedence attached AFTER the contextual functor: (rule >>= f)[n]; the functor is callable with and without context and flags the latter
                     head0 = head[:head.rindex('[')]
                     rs.append('(%s >>= hv::ctxf<%d>{})[%d]' % (head0, ri, r['prec']))
@@ -241,7 +241,7 @@ extern "C" void h_run_guard(const uint8_t* in, uint32_t opts, uint32_t* out) {
 }
 '''
 
-def constexpr_probe_cpp(g, inbytes, ws=0, nl=0):
+def constexpr_probe_cpp(g, inbytes, ws=0, nl=0, verbose=0):
     """a TU that parses the given bytes during constant evaluation (functors are trivial constexpr lambdas): used to confirm undefined behaviour
        found by the solver - a constant evaluator must reject an evaluation that meets UB ([expr.const])"""
     o = ['#include <ctpg/ctpg.hpp>', 'using namespace ctpg; using namespace ctpg::buffers; using namespace ctpg::ftors;', 'namespace g {']
@@ -269,7 +269,12 @@ def constexpr_probe_cpp(g, inbytes, ws=0, nl=0):
     o.append('}')
     o.append('constexpr char in[] = {%s};' % ', '.join(['(char)%d' % b for b in inbytes] + ['(char)0']))
     o.append('constexpr utils::no_stream ns{};')
-    o.append('constexpr bool run() { utils::no_stream s; auto r = g::p.parse(parse_options{}.set_skip_whitespace(%s).set_skip_newline(%s), cstring_buffer(in), s); return r.has_value(); }' % ('true' if ws else 'false', 'true' if nl else 'false'))
+    if verbose:
+        # a literal stream type that consumes what is streamed (C strings are read up to their NUL, as an ostream would): the verbose trace path is then part of the constant evaluation
+        o.append('struct cs { unsigned n = 0; constexpr cs& operator<<(const char* s) { while (*s) { ++s; ++n; } return *this; } template<typename T> constexpr cs& operator<<(const T&) { ++n; return *this; } };')
+        o.append('constexpr bool run() { cs s; auto r = g::p.parse(parse_options{}.set_skip_whitespace(%s).set_skip_newline(%s).set_verbose(true), cstring_buffer(in), s); return r.has_value(); }' % ('true' if ws else 'false', 'true' if nl else 'false'))
+    else:
+        o.append('constexpr bool run() { utils::no_stream s; auto r = g::p.parse(parse_options{}.set_skip_whitespace(%s).set_skip_newline(%s), cstring_buffer(in), s); return r.has_value(); }' % ('true' if ws else 'false', 'true' if nl else 'false'))
     o.append('constexpr bool R = run();')
     o.append('int main() { return R ? 0 : 1; }')
     return '\n'.join(o) + '\n'
